@@ -10,7 +10,8 @@ client `replay`/`replayAll`, `InRange`, `IdxInv`, `AllNodes`, `IdxOp`, `runOps`,
 `IndexProofsSeq.lean`, `IndexProofsAll.lean` (whole trees), `IndexProofsAuto.lean` (generated names),
 `IndexProofsSet.lean` (`SetDataNode`, handlers), `IndexProofsSnap.lean` (`doGetData`'s snapshot),
 `IndexProofsTrav.lean` (every traversal visit is an existing node), `IndexProofsReorder.lean` (REORDERDATA handler),
-`IndexProofsReach.lean` (every engine command, every engine state).
+`IndexProofsReach.lean` (every engine command, every engine state), `IndexProofsClone.lean` (subtree clone / restore:
+model in `Reflector/Clone.lean`).
 
 How the statements fit together.
 
@@ -423,5 +424,153 @@ example : TreeInv (insertOrderedChild ({} : Server) 0 [] (some 1) [] [97] true) 
 example : Reach (Muscle.Eng.SrvEngine.runCmd (Muscle.Eng.SrvEngine.runCmd (attach {} 0 [104]).1 0 (.ins [] [] [1, 2]))
     0 (.reorder [42] [])) :=
   .cmd 0 _ (.cmd 0 _ (.attach 0 [104] .init))
+
+/-! ## 5. subtree clone / save / restore (`CloneDataNodeSubtree`, `SaveNodeTreeToMessage`, `RestoreNodeTreeFromMessage`;
+model: `Reflector/Clone.lean`, engine ops `clone` / `save` / `restore`) -/
+
+/-- `DataNode::InsertIndexEntryAt(i, key)` keeps the invariant when `key` is not listed yet (that `key` is a child is
+    checked by the function itself).  Without the hypothesis it is false, in the model and in the C++ alike: this is the
+    call the clone made for children the destination already listed, before /repo 003a760. -/
+theorem index_sound_insertIndexEntryAt {sv : Server} (parent : List Bytes) (i : Nat) (key : Bytes) (h : TreeInv sv)
+    (hok : ∀ p, getNode sv parent = some p → key ∉ p.index) : TreeInv (insertIndexEntryAt sv parent i key) :=
+  treeInv_insertIndexEntryAt parent i key h hok
+
+/-- `CloneDataNodeSubtree` (as repaired by /repo 003a760), from EVERY state: any source node, any destination — fresh,
+    existing, with an index of its own, the source itself, inside the source or above it —, with or without ADDTOINDEX,
+    whether the call succeeds, stops at the depth limit or (in the model) runs out of fuel: every index of the resulting
+    tree is duplicate-free and lists only existing children, sibling names stay distinct. -/
+theorem index_sound_clone {sv : Server} (by_ : Nat) (src dest : List Bytes) (ati : Bool) (h : TreeInv sv) :
+    TreeInv (cloneDataNodeSubtree sv by_ src dest ati).1 :=
+  treeInv_cloneDataNodeSubtree by_ src dest ati h
+
+/-- `RestoreNodeTreeFromMessage`, from every state and for EVERY saved tree — also one `SaveNodeTreeToMessage` would
+    never write (an index naming absent children, or the same child twice) —, any destination, flag and depth. -/
+theorem index_sound_restore {sv : Server} (by_ : Nat) (t : Node) (dest : List Bytes) (ati : Bool) (maxDepth : Nat)
+    (h : TreeInv sv) : TreeInv (restoreNodeTree sv by_ t dest ati maxDepth).1 :=
+  treeInv_restoreNodeTree by_ t dest ati maxDepth h
+
+/-- a small tree: `/p` and `/q`, each with children `x`, `y`, both indexed -/
+def exLeafX : Node := .mk [120] none [] [] 0 []
+def exLeafY : Node := .mk [121] none [] [] 0 []
+def exTwo : Server :=
+  { root := .mk [] none [.mk [112] none [exLeafX, exLeafY] [[120], [121]] 0 [],
+                         .mk [113] none [exLeafX, exLeafY] [[120], [121]] 0 []] [] 0 [] }
+
+theorem exTwo_inv : TreeInv exTwo := by
+  have leafX : AllNodes NodeInv exLeafX := AllNodes.fresh [120] none
+  have leafY : AllNodes NodeInv exLeafY := AllNodes.fresh [121] none
+  have mid : ∀ nm : Bytes, AllNodes NodeInv (.mk nm none [exLeafX, exLeafY] [[120], [121]] 0 []) := by
+    intro nm
+    refine AllNodes.mk _ ⟨⟨by simp only [Node.index]; decide, by simp only [Node.index, Node.kids]; decide⟩,
+      by unfold KidsDistinct; simp only [Node.kids]; decide⟩ ?_
+    intro k hk
+    simp only [Node.kids, List.mem_cons, List.mem_nil_iff, or_false] at hk
+    rcases hk with rfl | rfl
+    · exact leafX
+    · exact leafY
+  refine AllNodes.mk _ ⟨⟨by decide, by decide⟩, by unfold KidsDistinct; decide⟩ ?_
+  intro k hk
+  simp only [exTwo, Node.kids, List.mem_cons, List.mem_nil_iff, or_false] at hk
+  rcases hk with rfl | rfl
+  · exact mid _
+  · exact mid _
+
+/-- the repaired index loop, cloning `/p`'s index onto `/q` (which lists the same children): `/q`'s index is `/p`'s -/
+example : (getNode (cloneIndexLoop true [[112]] [[113]] 2 0 0 exTwo) [[113]]).map Node.index = some [[120], [121]] := by
+  decide
+
+/-- …and the loop as it was BEFORE /repo 003a760 (`dedup := false`: `InsertIndexEntryAt` without removing the child's
+    existing entry) lists every child twice — the defect a reviewer found, which no check exercised before the engine
+    had the `clone` op -/
+example : (getNode (cloneIndexLoop false [[112]] [[113]] 2 0 0 exTwo) [[113]]).map Node.index =
+    some [[120], [121], [120], [121]] := by
+  decide
+
+/-- so the unrepaired variant does NOT preserve the invariant (from a state that satisfies it: `exTwo_inv`) -/
+theorem index_unsound_clone_before_003a760 : ¬ TreeInv (cloneIndexLoop false [[112]] [[113]] 2 0 0 exTwo) := by
+  intro h
+  have hi : (getNode (cloneIndexLoop false [[112]] [[113]] 2 0 0 exTwo) [[113]]).map Node.index =
+      some [[120], [121], [120], [121]] := by decide
+  cases hg : getNode (cloneIndexLoop false [[112]] [[113]] 2 0 0 exTwo) [[113]] with
+  | none => rw [hg] at hi; cases hi
+  | some n =>
+    rw [hg] at hi
+    simp only [Option.map_some, Option.some.injEq] at hi
+    have hn := (treeInv_getNode h hg).here.1.1
+    rw [hi] at hn
+    exact absurd hn (by decide)
+
+/-- What the index part of a clone hands to `notifyIndex`: one round of the loop, for an entry whose name is a child of
+    the clone, is `RemoveIndexEntry(name, notify)` followed by `InsertIndexEntryAt(writeIdxCounter, name, notify)` on the
+    destination (first equation); the removal's instruction is exposed by `log_replay_removeIndexEntry`, the insert's by
+    the second equation, with the destination node as it is after the change. -/
+theorem clone_emitted {sv : Server} {src dest : List Bytes} {nm : Bytes} {clone : Node} (r i w : Nat)
+    (hs : (getNode sv src).bind (fun n => n.index[i]?) = some nm) (hd : getNode sv dest = some clone)
+    (hk : (findKid nm clone.kids).isSome) :
+    cloneIndexLoop true src dest (r+1) i w sv =
+        cloneIndexLoop true src dest r (i+1) (w+1) (insertIndexEntryAt (removeIndexEntry sv dest nm true) dest w nm) ∧
+      (∀ (sv' : Server) (p : Node) (k : Nat), getNode sv' dest = some p → (findKid nm p.kids).isSome →
+        insertIndexEntryAt sv' dest k nm =
+          notifyIndex (setNode sv' dest (fun q => q.setIndex (q.index.take k ++ [nm] ++ q.index.drop k))) dest
+            (p.setIndex (insertAt p.index k nm)) (Instr.ins k nm).render) :=
+  ⟨cloneIndexLoop_emitted r i w hs hd hk, fun _ _ k hp hkid => insertIndexEntryAt_emits k hp hkid⟩
+
+/-- The index loop of a clone from any point that satisfies the loop invariant `CloneInv` (the first `w` entries of the
+    destination's index are the names written so far and none of them is read again; it holds at the start of the loop in
+    every `TreeInv` state and is kept by every round): the destination keeps its children, and the client that applies the
+    emitted instructions (`cloneIndexLog`), in order, to the destination's old index holds its new index.  Source and
+    destination may be one node or lie inside one another; the source's index is read as it is at each round. -/
+theorem log_replay_clone_loop (src dest : List Bytes) (r i w : Nat) {sv : Server} {pd : Node}
+    (hinv : CloneInv src dest i w sv) (hd : getNode sv dest = some pd) :
+    ∃ pd', getNode (cloneIndexLoop true src dest r i w sv) dest = some pd' ∧ pd'.kids = pd.kids ∧
+      replayAll pd.index ((cloneIndexLog src dest r i w sv).map Instr.render) = some pd'.index := by
+  obtain ⟨pd', h1, h2, h3⟩ := cloneIndexLoop_replay src dest r i w sv pd hinv hd
+  exact ⟨pd', h1, h2, by rw [replayAll_render]; exact h3⟩
+
+/-- `CloneDataNodeSubtree`'s "make sure the clone ends up with an equivalent index", in any state of a sound tree: the
+    instructions handed to `notifyIndex` during the clone (`cloneIndexLogOf`), replayed on the destination's old index,
+    give its new index — and the client never refuses one (every position in range, every removal names the entry at
+    its position). -/
+theorem log_replay_clone {sv : Server} (by_ : Nat) {src dest : List Bytes} {pd : Node} (h : TreeInv sv)
+    (hd : getNode sv dest = some pd) :
+    ∃ pd', getNode (cloneIndex true by_ sv src dest).1 dest = some pd' ∧ pd'.kids = pd.kids ∧
+      replayAll pd.index ((cloneIndexLogOf by_ sv src dest).map Instr.render) = some pd'.index :=
+  cloneIndex_replay by_ h hd
+
+/-- "…make sure the clone ends up with an equivalent index": after the loop the destination's index BEGINS with the copied
+    names (`cloneIndexNames`: the source's entries, read live, whose name is a child of the clone), in the order in which they
+    were read; entries the destination had for other children follow. -/
+theorem clone_index_prefix (src dest : List Bytes) (r i w : Nat) {sv : Server} {pd : Node}
+    (hinv : CloneInv src dest i w sv) (hd : getNode sv dest = some pd) :
+    ∃ pd', getNode (cloneIndexLoop true src dest r i w sv) dest = some pd' ∧
+      pd'.index.take (w + (cloneIndexNames src dest r i w sv).length) =
+        pd.index.take w ++ cloneIndexNames src dest r i w sv :=
+  cloneIndexLoop_prefix src dest r i w sv pd hinv hd
+
+/-- non-vacuity: `/q` listed `[y, x]`-like entries of its own; after the loop its index is `/p`'s -/
+example : cloneIndexNames [[112]] [[113]] 2 0 0 exTwo = [[120], [121]] := by decide
+
+/-- the positions of a clone's log are in range -/
+theorem positions_in_range_clone {sv : Server} (by_ : Nat) {src dest : List Bytes} {pd : Node} (h : TreeInv sv)
+    (hd : getNode sv dest = some pd) : InRange pd.index (cloneIndexLogOf by_ sv src dest) := by
+  obtain ⟨pd', _, _, hr⟩ := cloneIndex_replay by_ (src := src) h hd
+  rw [replayAll_render] at hr
+  exact inRange_of_applyAll hr
+
+/-- non-vacuity: the log of cloning `/p`'s index onto `/q` is remove-then-insert per entry, and replays -/
+example : cloneIndexLogOf 0 exTwo [[112]] [[113]] =
+    [.rem 0 [120], .ins 0 [120], .rem 1 [121], .ins 1 [121]] := by decide
+example : ∃ pd', getNode (cloneIndex true 0 exTwo [[112]] [[113]]).1 [[113]] = some pd' ∧
+    pd'.kids = [exLeafX, exLeafY] ∧
+    replayAll [[120], [121]] ((cloneIndexLogOf 0 exTwo [[112]] [[113]]).map Instr.render) = some pd'.index :=
+  log_replay_clone 0 (pd := .mk [113] none [exLeafX, exLeafY] [[120], [121]] 0 []) exTwo_inv rfl
+
+/-- non-vacuity of the new `Reach` constructors: a session attaches, inserts ordered children, clones that subtree
+    twice onto one destination, restores a saved copy of it -/
+example : Reach (restoreNodeTree
+    (cloneDataNodeSubtree (cloneDataNodeSubtree
+      (Muscle.Eng.SrvEngine.runCmd (attach {} 0 [104]).1 0 (.ins [] [] [1, 2])) 0 [[104], [48]] [[113]] false).1
+      0 [[104], [48]] [[113]] false).1 0 (Node.fresh [] none) [[114]] true 5).1 :=
+  .restore 0 _ _ _ _ (.clone 0 _ _ _ (.clone 0 _ _ _ (.cmd 0 _ (.attach 0 [104] .init))))
 
 end Muscle.Props.C13
